@@ -285,6 +285,41 @@ def kernel_replaces(tier, seed, params):
 
 
 # ------------------------------------------------------------------------------------------------ grammar
+def sentinel_times():
+    """date/time constants that the date/time detection code itself uses (module-level datetime objects and literal
+    datetime(...)/time(...) calls in its source): strings built from them are the natural boundary cases of that code"""
+    import ast as _ast
+    import datetime as _dt
+    import inspect as _inspect
+    import json_to_models.dynamic_typing.string_datetime as mod
+    found = set()
+
+    def add(x):
+        if isinstance(x, _dt.datetime):
+            found.add((x.year, x.month, x.day, x.hour, x.minute, x.second))
+        elif isinstance(x, _dt.time):
+            found.add((2018, 12, 31, x.hour, x.minute, x.second))
+    for v in vars(mod).values():
+        if isinstance(v, (tuple, list)):
+            for x in v:
+                add(x)
+        else:
+            add(v)
+    try:
+        for node in _ast.walk(_ast.parse(_inspect.getsource(mod))):
+            if isinstance(node, _ast.Call) and _ast.unparse(node.func) in ("datetime", "time", "datetime.datetime", "datetime.time"):
+                args = [a.value for a in node.args if isinstance(a, _ast.Constant) and isinstance(a.value, int)]
+                if _ast.unparse(node.func).endswith("datetime") and len(args) >= 3:
+                    args = (args + [0, 0, 0])[:6]
+                    found.add(tuple(args))
+                elif len(args) >= 1:
+                    args = (args + [0, 0])[:3]
+                    found.add((2018, 12, 31) + tuple(args))
+    except Exception:
+        pass
+    return sorted(found)
+
+
 def grammar_string(ch):
     fam = ch.choose("family", ["int", "float", "bool", "date", "time", "datetime", "word"], shard=True)
     pad_l, pad_r = ch.choose("padding", [("", ""), (" ", ""), ("", " "), ("\t", "\n")])
@@ -299,7 +334,9 @@ def grammar_string(ch):
     elif fam == "bool":
         core = ch.choose("word", ["true", "false", "True", "FALSE", "tRuE", "yes", "1", "truee", "t"])
     elif fam == "date":
-        core = ch.choose("date", ["2018-12-31", "2018-02-29", "2018-1-2", "20181231", "2018-12", "2018", "31.12.2018", "2018-13-01", "0001-01-01"])
+        dates = ["2018-12-31", "2018-02-29", "2018-1-2", "20181231", "2018-12", "2018", "31.12.2018", "2018-13-01", "0001-01-01"]
+        dates += [f"{y:04d}-{mo:02d}-{d:02d}" for (y, mo, d, *_rest) in sentinel_times()]
+        core = ch.choose("date", list(dict.fromkeys(dates)))
     elif fam == "time":
         hm = ch.choose("hm", ["12:58", "00:00", "23:59", "24:00", "7:05", "12:60"])
         sec = ch.choose("sec", ["", ":12", ":59", ":60"])
@@ -309,7 +346,10 @@ def grammar_string(ch):
     elif fam == "datetime":
         d = ch.choose("date", ["2018-12-31", "2018-02-28", "20181231"])
         sep = ch.choose("sep", ["T", " ", "t"])
-        t = ch.choose("time", ["12:58:12", "12:58", "12:58:12.123456", "12:58:12.000001", "00:00:00", "12:58:12Z", "12:58:12+03:00", "12:58:12.5-01:30"])
+        times = ["12:58:12", "12:58", "12:58:12.123456", "12:58:12.000001", "00:00:00", "12:58:12Z", "12:58:12+03:00", "12:58:12.5-01:30"]
+        for (_y, _mo, _d, h, mi, sec) in sentinel_times():
+            times += [f"{h:02d}:{mi:02d}", f"{h:02d}", f"{h:02d}:{mi:02d}:{sec:02d}", f"{h:02d}{mi:02d}", f"{h:02d}:{mi:02d}Z"]
+        t = ch.choose("time", list(dict.fromkeys(times)))
         core = d + sep + t
     else:
         core = ch.choose("word", ["abc", "", "12abc", "none", "null", "e5", "--1", "+", "."])
@@ -410,6 +450,12 @@ def scen_disabled(ch, params, out):
     reg.add(replace_types=(IntString,), cls=FloatString)
     reg.add(cls=BooleanString)
     register_datetime_classes(reg)
+    if ch.flag("strings_were_classified_before_disabling"):
+        from json_to_models.generator import MetadataGenerator as _MG
+        warm = _MG(str_types_registry=reg)
+        for v in ("12", "1.5", "true", "2018-12-31", "12:58:12", "2018-12-31T12:58:12", "13", "2"):
+            warm._detect_type(v)
+        warm.generate({"a": "12", "g": ["1", "2.5"]})
     for n in used:
         reg.remove_by_name(n)
     canonical = {"int": "IntString", "FloatString": "FloatString", "bool": "BooleanString", "date": "IsoDateString", "IsoTimeString": "IsoTimeString",
@@ -470,8 +516,11 @@ def scen_disabled_cli(ch, params, out):
     dis = (["--disable-str-serializable-types"] + disabled) if disabled else []
     dt = ["--datetime"] if use_dt else []
     argv += (dis + dt) if order_first else (dt + dis)
+    earlier = ch.flag("earlier_run_in_same_process_without_the_option")
+    if earlier:
+        clienv.run_main(["-m", "Root", "/vfs/in.json", "-f", fw] + dt, dict(fs))
     res = clienv.run_main(argv, fs)
-    out.info = {"argv": argv}
+    out.info = {"argv": argv, "earlier_run": earlier}
     if not out.check(res.status == 0, "cli_fails", lambda: f"{res.stderr[-300:]} argv={argv}", "cli_fails"):
         return
     body = res.stdout.split('\n"""\n', 1)[-1]
